@@ -116,6 +116,8 @@ def o_write(inp):
         cls.append("non-blank-separator")
     if any(sp["t"] == "same" for sp in inp["lib"]) or any(isinstance(fs, dict) for sp in inp["lib"] if sp["t"] == "entry" for fs in sp["fields"]):
         cls.append("same-object-held-twice")
+    if any(sp.get("sub") for sp in inp["lib"]):
+        cls.append("subclass-instance")
     nontrivial = any(len(e.fields) >= 2 for e in entries) and fspec is not None
     if not isinstance(text, str):
         return (("type", repr(text), "str"), nontrivial, cls)
@@ -289,6 +291,10 @@ def o_edited(inp):
         else:
             continue
         n_applied += 1
+    # lists handed out by the views are the caller's: trimming one changes nothing the writer sees
+    for handed_out in (lib.entries, lib.strings, lib.failed_blocks, lib.comments, lib.preambles):
+        del handed_out[len(handed_out) // 2:]
+    lib.entries_dict.clear()
     text = bwriter.write(lib, fmt)
     exp = ref_render(lib, f)
     cls = ["edited-after-read"]
@@ -316,6 +322,13 @@ FIXED_LIBS = [
      {"t": "same", "of": 3},
      {"t": "icomment", "comment": "% x", "line": 3, "raw": "r"},
      {"t": "same", "of": 0}],
+    # every kind of failed block and instances of application-defined subclasses of the model classes
+    [{"t": "entry", "type": "article", "key": "k", "fields": [["a", "{1}", 0], ["title", "{T}", 1]], "line": 0, "raw": "r", "sub": True},
+     {"t": "dupfield", "entry": {"type": "misc", "key": "d", "fields": [["a", "{1}", 3], ["a", "{2}", 3]], "line": 3, "raw": "@misc{d, a = {1}, a = {2}}"}, "keys": ["a"]},
+     {"t": "mwerror", "entry": {"type": "misc", "key": "m", "fields": [["author", "{A, B, C, D}", 5]], "line": 5, "raw": "@misc{m, author = {A, B, C, D}}"}, "err": "invalidname"},
+     {"t": "ecomment", "comment": "sub", "line": 6, "raw": "r", "sub": True},
+     {"t": "failed", "raw": "@a{x,\n y", "line": 7, "sub": True},
+     {"t": "entry", "type": "misc", "key": "k", "fields": [["kk", "{dup}", 9]], "line": 9, "raw": "@misc{k, kk = {dup}}"}],
 ]
 
 
@@ -419,4 +432,4 @@ def run(chk):
         "and library unchanged; value_column setter validation. Non-trivial: an entry with >= 2 fields under a non-default "
         "format (write), >= 2 fields (columns); distinct by case."
     )
-    chk.required_classes = ["auto", "auto>=2entries", "key-longer-than-column", "empty-indent", "zero-fields+trailing-comma", "failed+custom-comment", "non-blank-separator", "columns", "setter", "format-reuse", "interrupted-write", "edited-after-read", "same-object-held-twice"]
+    chk.required_classes = ["auto", "auto>=2entries", "key-longer-than-column", "empty-indent", "zero-fields+trailing-comma", "failed+custom-comment", "non-blank-separator", "columns", "setter", "format-reuse", "interrupted-write", "edited-after-read", "same-object-held-twice", "subclass-instance"]
